@@ -1,5 +1,5 @@
 (* C01 — the memory bound is never exceeded.  Statements only; proofs are in A/InvA.v. *)
-Require Import LruV.A.InvA LruV.T.TableA.
+Require Import LruV.A.InvA LruV.T.TableA LruV.B.StepB LruV.B.ReachB.
 
 (* Every state reachable from any constructor configuration (any limit below 2^64, any initial
    capacity) by any sequence of well-formed operations, under every resolution of the table
@@ -38,6 +38,16 @@ Qed.
 Theorem C01_monitor_sound : forall E VS, 0 < E -> VS <= E -> forall s, Reach E VS s -> c01_mon E s = true.
 Proof. intros E VS HE HV s HR. apply (inv_c01_mon E VS HE HV). eapply reach_inv; eauto. Qed.
 
+(* at pointer level: in every state of the heap-of-nodes model (Layer B) reachable from new / with_capacity by any
+   sequence of public operations under any table oracle, the counter is within the limit and equals the unbounded sum of the
+   size estimates of the entries owned by the nodes linked from the seal *)
+Theorem C01_pointer_level : forall E VS, 0 < E -> VS <= E -> forall b, ReachB E VS b ->
+  bcur b <= bmax b /\ bcur b = sumN (map (true_size E) (absl (gh (bg b)) (glist (bg b)))).
+Proof.
+  intros E VS HE HV b HR. destruct (reachB_sound E VS HE HV b HR) as [_ HA].
+  destruct (C01_bound E VS HE HV _ HA) as (H1 & _ & H3). split; [exact H1|exact H3].
+Qed.
+
 (* The pinned tree's mutate (current_size += diff before evicting) is refuted: a reachable-shaped
    state satisfying the invariant on which it overflows.  This is the replayed finding 8.1. *)
 Definition big1 : N := 2^63.
@@ -71,6 +81,7 @@ Print Assumptions C01_bound.
 Print Assumptions C01_arith.
 Print Assumptions C01_total.
 Print Assumptions C01_monitor_sound.
+Print Assumptions C01_pointer_level.
 Print Assumptions C01_pinned_mutate_refuted.
 Check C01_bound : forall E VS, 0 < E -> VS <= E -> forall s, Reach E VS s ->
   cur s <= maxs s /\ sumN (map (true_size E) (ents s)) <= maxs s /\ cur s = sumN (map (true_size E) (ents s)).
